@@ -144,7 +144,12 @@ def main(argv=None):
     if a.explain:
         print(open(a.explain).read())
         return 0
-    from .props import PROPS
+    try:
+        from .props import PROPS
+    except Exception:       # a broken checker must not look like a violation (exit 1)
+        print(f'ANALYSIS-ERROR property={a.prop}: internal error while loading the rule tables')
+        traceback.print_exc()
+        return 2
     ids = sorted(PROPS) if a.prop == 'all' else [a.prop]
     worst = 0
     for pid in ids:
